@@ -7,6 +7,8 @@ pub mod model;
 pub mod c01;
 pub mod c02;
 pub mod c03;
+pub mod c03_gen;
+pub mod c03_ip;
 pub mod c04;
 pub mod c05;
 pub mod c06;
